@@ -66,6 +66,16 @@ pub const ROOTS: &[Root] = &[
     Root { name: "promo-pinned", fen: "3rk3/2P1P3/8/8/8/8/8/3RK3 w - - 0 1", class: 0 },
     Root { name: "underpromo-mate", fen: "8/5P1k/5K2/8/8/8/8/8 w - - 0 1", class: 0 },
     Root { name: "rook-capture-rights", fen: "r3k2r/1B4B1/8/8/8/8/1b4b1/R3K2R w KQkq - 0 1", class: 1 },
+    // three pawns about to promote with captures on both sides: more than 32 tactical moves in one position
+    Root { name: "promo-storm-b", fen: "r1n1n1r1/1P1P1P2/8/7k/8/8/8/7K b - - 0 1", class: 1 },
+    Root { name: "promo-storm-w", fen: "r1n1n1r1/1P1P1P2/8/7k/8/8/8/7K w - - 0 1", class: 1 },
+    Root { name: "promo-storm-m", fen: "7k/8/8/8/7K/8/1p1p1p2/R1N1N1R1 w - - 0 1", class: 1 },
+    Root { name: "edge-promotions", fen: "4k3/P6P/8/8/8/8/p6p/4K3 b - - 0 1", class: 0 },
+    Root { name: "edge-promo-captures", fen: "1r2k1r1/P6P/8/8/8/8/p6p/1R2K1R1 w - - 0 1", class: 1 },
+    // rooks that can be traded on their home corners while castling rights are still held
+    Root { name: "rook-trade", fen: "r4rk1/1pp2ppp/2n2n2/3p4/3P4/2N2N2/1PP2PPP/R2RK3 b Q - 0 1", class: 2 },
+    Root { name: "rook-trade-b", fen: "r2rk3/1pp2ppp/2n2n2/3p4/3P4/2N2N2/1PP2PPP/R4RK1 w q - 0 1", class: 2 },
+    Root { name: "open-corners", fen: "r3k2r/7p/8/8/8/8/P7/R3K2R w KQkq - 0 1", class: 1 },
     // castling rights with the enemy king next to the castling path (only a king attacks the path)
     Root { name: "castle-near-king-ws", fen: "3r4/8/8/8/8/8/6k1/4K2R w K - 0 1", class: 0 },
     Root { name: "castle-near-king-wl", fen: "6r1/8/8/8/8/8/2k5/R3K3 w Q - 0 1", class: 0 },
@@ -75,6 +85,20 @@ pub const ROOTS: &[Root] = &[
     // locked fortresses: both sides can only shuttle a king, long stretches of single legal moves
     Root { name: "fortress", fen: "5b1k/4p1p1/4P1P1/8/7p/1p1p4/1P1P3P/K1B5 w - - 0 1", class: 0 },
     Root { name: "fortress-b", fen: "k1b5/1p1p3p/1P1P4/7P/8/4p1p1/4P1P1/5B1K b - - 0 1", class: 0 },
+];
+
+/// Move-reached twins: (root, line A, line B). Both lines end in the same placement with the same side to move and
+/// the same castling rights, but line A's last move is a double pawn push that creates an en-passant right and line
+/// B reaches the square with two single steps. (Sibling FENs exercise the hash of a *loaded* position; these exercise
+/// the hash as `push` maintains it.)
+pub const MOVE_TWINS: &[(&str, &str, &str)] = &[
+    ("startpos", "e2e4 c7c6 e4e5 d7d5", "e2e3 c7c6 e3e4 d7d6 e4e5 d6d5"),
+    ("startpos", "e2e4 c7c6 e4e5 f7f5", "e2e3 c7c6 e3e4 f7f6 e4e5 f6f5"),
+    ("startpos", "g1f3 d7d5 f3g1 d5d4 e2e4", "g1f3 d7d5 e2e3 d5d4 f3g1 g8f6 e3e4 f6g8"),
+    ("4k3/3p4/8/4P3/8/8/7P/4K3 w - - 0 1", "h2h4 d7d5", "h2h3 d7d6 h3h4 d6d5"),
+    ("4k3/7p/8/8/4p3/8/3P4/4K3 b - - 0 1", "h7h5 d2d4", "h7h6 d2d3 h6h5 d3d4"),
+    ("r3k2r/3p4/8/4P3/8/8/7P/R3K2R w KQkq - 0 1", "h2h4 d7d5", "h2h3 d7d6 h3h4 d6d5"),
+    ("r1bqkbnr/pp1ppppp/2n5/2p5/4P3/5N2/PPPP1PPP/RNBQKB1R w KQkq - 2 3", "e4e5 d7d5", "h2h3 d7d6 e4e5 d6d5 h3h4 h7h6"),
 ];
 
 /// Perpetual-check lines: (root, moves). After the moves the side to move has a single legal move, which is the
